@@ -53,6 +53,9 @@ def build_case(rnd, n_events=40, cmds=None, cmd_rate=0.0, config=None, **kw):
     return dict(config=cfg, events=events, impl_events=impl, dialect=d['name'])
 
 
+IMPL_LIMIT = 20      # seconds per session on the implementation (a session normally takes milliseconds)
+
+
 def run_impl(case):
     cfg = case['config']
 
@@ -118,8 +121,8 @@ def compare_case(case, mres):
         return [('model', 'model entry returned %r' % (mres,))]
     mouts, mfinal = mres[1], mres[2]
     try:
-        iouts, ifinal, pacing = run_impl(case)
-    except Exception as e:
+        iouts, ifinal, pacing = common.time_limited(IMPL_LIMIT, run_impl, case)
+    except (Exception, common.ImplTimeout) as e:
         import traceback
         return [('impl.exception', 'implementation raised %r\n%s' % (e, traceback.format_exc()[-1500:]))]
     diffs = []
@@ -189,16 +192,24 @@ def run_cases(res, cases, owns, what, theorem=None, nontrivial=None, kernel_samp
     margs = [[mcfg(c['config']), c['events']] for c in cases]
     mres = common.model_eval('session', margs)
     shrunk = 0
+    timeouts = 0
     for c, m in zip(cases, mres):
+        if timeouts >= 3:
+            # the implementation hangs / has become unusably slow: already reported, do not spend hours repeating it
+            res.extra['stopped_after_timeouts'] = timeouts
+            break
         res.evaluations += 1
         r = compare_case(c, m)
         if r == 'oom':
             res.out_of_model += 1
             continue
         mine = [(cat, det) for cat, det in r if owns(cat) or cat in ('model', 'harness', 'impl.exception')]
+        timed_out = any(cat == 'impl.exception' and 'ImplTimeout' in det for cat, det in mine)
+        if timed_out:
+            timeouts += 1
         if mine:
             c2 = c
-            if shrunk < 3:
+            if shrunk < 3 and not timed_out:
                 try:
                     c2 = shrink(c, lambda cat: owns(cat) or cat in ('model', 'harness', 'impl.exception'))
                     m2 = common.model_eval('session', [[mcfg(c2['config']), c2['events']]], shards=1)[0]
